@@ -54,7 +54,10 @@ fn main() {
             "C08" => grammar::replay(&prop, &r),
             "C09" | "C10" => generate::replay(&prop, &r),
             "C11" => escaping::replay(&prop, &r),
-            "C04" => escaping::replay(&prop, &r) && rules::replay(&prop, &r),
+            "C04" => {
+                // the property has two harness modules: dispatch on the op name
+                if matches!(r.split_whitespace().next(), Some("esc" | "unesc" | "utf8" | "rulem")) { escaping::replay(&prop, &r) } else { rules::replay(&prop, &r) }
+            }
             _ => { eprintln!("no replay for {prop}"); false }
         };
         std::process::exit(if ok { 0 } else { 1 });
